@@ -836,8 +836,12 @@ def check_case(ctx, st, cfg, label, must_reject, tag):
         st.setdefault('icases', []).append(('case include ' + ' '.join(L.include_tokens(cfg, ctx.scratch, tag, a.here)), ['view']))
         st.setdefault('iimpls', []).append([L.parser_view(a.parser)])
         ctx.count('include:stage-compared-with-model')
-    toks = L.model_tokens(a, L.known_dirs([ctx.scratch, a.here or '/', os.path.join(ctx.scratch, 'inc_%s' % tag)] +
-                                          sorted({os.path.dirname(p) for p, _ in included_files(cfg, ctx.scratch, tag)})))
+    extra_dirs = sorted({os.path.dirname(p) for p, _ in included_files(cfg, ctx.scratch, tag)})
+    if cfg.get('layout'):
+        # every directory of the layout tree exists (a corrupted log file name may point into any of them)
+        root = L.layout_paths(cfg['layout'], ctx.scratch, tag)[0]
+        extra_dirs = sorted(set(extra_dirs) | {dp for dp, _, _ in os.walk(root)})
+    toks = L.model_tokens(a, L.known_dirs([ctx.scratch, a.here or '/', os.path.join(ctx.scratch, 'inc_%s' % tag)] + extra_dirs))
     nontrivial = any(s.split(':')[0] in ('program', 'eventlistener', 'fcgi-program') for s, _ in cfg['sections'])
     if toks is None:
         ctx.count('not-modelled:before-parser-view')
